@@ -1,1 +1,331 @@
-//! x86 intrinsic models (stubs)
+//! Loop-free scalar models of the x86 intrinsics that Kani 0.68 cannot execute as
+//! shipped (LLVM-specific intrinsics, `simd_cast`, `simd_select`, and `simd_add/mul`
+//! which raise a spurious overflow check).  All other intrinsics the crate uses run
+//! unmodified under Kani (probe: tools/gen_probe.py).
+//!
+//! Written from the pseudo-code in Intel's Intrinsics Guide on plain arrays.
+//! They are NOT trusted blindly: `chk.py --setup` / `selftest.py` runs every model
+//! against the real instruction on this CPU (random + corner vectors).
+//!
+//! Naming convention (used by tools/gen_x86_glue.py): the model of `_mm_foo` is
+//! `mm_foo`, of `_mm256_foo` is `mm256_foo`, with the same signature.
+#![allow(non_snake_case)]
+use core::arch::x86_64::*;
+use core::mem::transmute as tm;
+
+macro_rules! lanes {
+    (2, $f:expr) => {{ let f = $f; [f(0), f(1)] }};
+    (4, $f:expr) => {{ let f = $f; [f(0), f(1), f(2), f(3)] }};
+    (8, $f:expr) => {{ let f = $f; [f(0), f(1), f(2), f(3), f(4), f(5), f(6), f(7)] }};
+    (16, $f:expr) => {{
+        let f = $f;
+        [
+            f(0), f(1), f(2), f(3), f(4), f(5), f(6), f(7), f(8), f(9), f(10), f(11), f(12), f(13),
+            f(14), f(15),
+        ]
+    }};
+    (32, $f:expr) => {{
+        let f = $f;
+        [
+            f(0), f(1), f(2), f(3), f(4), f(5), f(6), f(7), f(8), f(9), f(10), f(11), f(12), f(13),
+            f(14), f(15), f(16), f(17), f(18), f(19), f(20), f(21), f(22), f(23), f(24), f(25), f(26),
+            f(27), f(28), f(29), f(30), f(31),
+        ]
+    }};
+}
+
+#[inline(always)]
+fn sat_i16(v: i32) -> i16 {
+    if v > i16::MAX as i32 {
+        i16::MAX
+    } else if v < i16::MIN as i32 {
+        i16::MIN
+    } else {
+        v as i16
+    }
+}
+#[inline(always)]
+fn sat_u8(v: i16) -> u8 {
+    if v > 255 {
+        255
+    } else if v < 0 {
+        0
+    } else {
+        v as u8
+    }
+}
+#[inline(always)]
+fn sat_u16(v: i32) -> u16 {
+    if v > 65535 {
+        65535
+    } else if v < 0 {
+        0
+    } else {
+        v as u16
+    }
+}
+#[inline(always)]
+fn mulhrs(a: i16, b: i16) -> i16 {
+    ((((a as i32) * (b as i32)) >> 14).wrapping_add(1) >> 1) as i16
+}
+/// cvtps2dq with the default MXCSR rounding mode (round to nearest, ties to even);
+/// NaN and out-of-range give the "integer indefinite" value 0x8000_0000.
+#[inline(always)]
+fn cvt_f32_i32(x: f32) -> i32 {
+    if x.is_nan() || x >= 2147483648.0 || x < -2147483648.0 {
+        return i32::MIN;
+    }
+    let f = x.floor();
+    let d = x - f;
+    let fi = f as i32;
+    if d < 0.5 {
+        fi
+    } else if d > 0.5 {
+        fi.wrapping_add(1)
+    } else if fi & 1 == 0 {
+        fi
+    } else {
+        fi.wrapping_add(1)
+    }
+}
+
+// --------------------------------------------------------------------------- 128-bit integer
+
+pub fn mm_add_epi16(a: __m128i, b: __m128i) -> __m128i {
+    let (a, b): ([i16; 8], [i16; 8]) = unsafe { (tm(a), tm(b)) };
+    unsafe { tm(lanes!(8, |i: usize| a[i].wrapping_add(b[i]))) }
+}
+pub fn mm_add_epi32(a: __m128i, b: __m128i) -> __m128i {
+    let (a, b): ([i32; 4], [i32; 4]) = unsafe { (tm(a), tm(b)) };
+    unsafe { tm(lanes!(4, |i: usize| a[i].wrapping_add(b[i]))) }
+}
+pub fn mm_add_epi64(a: __m128i, b: __m128i) -> __m128i {
+    let (a, b): ([i64; 2], [i64; 2]) = unsafe { (tm(a), tm(b)) };
+    unsafe { tm(lanes!(2, |i: usize| a[i].wrapping_add(b[i]))) }
+}
+pub fn mm_mullo_epi16(a: __m128i, b: __m128i) -> __m128i {
+    let (a, b): ([i16; 8], [i16; 8]) = unsafe { (tm(a), tm(b)) };
+    unsafe { tm(lanes!(8, |i: usize| a[i].wrapping_mul(b[i]))) }
+}
+pub fn mm_mullo_epi32(a: __m128i, b: __m128i) -> __m128i {
+    let (a, b): ([i32; 4], [i32; 4]) = unsafe { (tm(a), tm(b)) };
+    unsafe { tm(lanes!(4, |i: usize| a[i].wrapping_mul(b[i]))) }
+}
+pub fn mm_mulhrs_epi16(a: __m128i, b: __m128i) -> __m128i {
+    let (a, b): ([i16; 8], [i16; 8]) = unsafe { (tm(a), tm(b)) };
+    unsafe { tm(lanes!(8, |i: usize| mulhrs(a[i], b[i]))) }
+}
+pub fn mm_mul_epi32(a: __m128i, b: __m128i) -> __m128i {
+    let (a, b): ([i32; 4], [i32; 4]) = unsafe { (tm(a), tm(b)) };
+    unsafe { tm(lanes!(2, |i: usize| (a[2 * i] as i64) * (b[2 * i] as i64))) }
+}
+pub fn mm_madd_epi16(a: __m128i, b: __m128i) -> __m128i {
+    let (a, b): ([i16; 8], [i16; 8]) = unsafe { (tm(a), tm(b)) };
+    unsafe {
+        tm(lanes!(4, |i: usize| ((a[2 * i] as i32) * (b[2 * i] as i32))
+            .wrapping_add((a[2 * i + 1] as i32) * (b[2 * i + 1] as i32))))
+    }
+}
+pub fn mm_min_epu16(a: __m128i, b: __m128i) -> __m128i {
+    let (a, b): ([u16; 8], [u16; 8]) = unsafe { (tm(a), tm(b)) };
+    unsafe { tm(lanes!(8, |i: usize| if a[i] < b[i] { a[i] } else { b[i] })) }
+}
+pub fn mm_shuffle_epi8(a: __m128i, b: __m128i) -> __m128i {
+    let (a, b): ([u8; 16], [u8; 16]) = unsafe { (tm(a), tm(b)) };
+    unsafe {
+        tm(lanes!(16, |i: usize| if b[i] & 0x80 != 0 {
+            0u8
+        } else {
+            a[(b[i] & 0x0f) as usize]
+        }))
+    }
+}
+pub fn mm_blendv_epi8(a: __m128i, b: __m128i, mask: __m128i) -> __m128i {
+    let (a, b, m): ([u8; 16], [u8; 16], [u8; 16]) = unsafe { (tm(a), tm(b), tm(mask)) };
+    unsafe { tm(lanes!(16, |i: usize| if m[i] & 0x80 != 0 { b[i] } else { a[i] })) }
+}
+pub fn mm_packs_epi32(a: __m128i, b: __m128i) -> __m128i {
+    let (a, b): ([i32; 4], [i32; 4]) = unsafe { (tm(a), tm(b)) };
+    unsafe {
+        tm(lanes!(8, |i: usize| if i < 4 {
+            sat_i16(a[i])
+        } else {
+            sat_i16(b[i - 4])
+        }))
+    }
+}
+pub fn mm_packus_epi32(a: __m128i, b: __m128i) -> __m128i {
+    let (a, b): ([i32; 4], [i32; 4]) = unsafe { (tm(a), tm(b)) };
+    unsafe {
+        tm(lanes!(8, |i: usize| if i < 4 {
+            sat_u16(a[i])
+        } else {
+            sat_u16(b[i - 4])
+        }))
+    }
+}
+pub fn mm_packus_epi16(a: __m128i, b: __m128i) -> __m128i {
+    let (a, b): ([i16; 8], [i16; 8]) = unsafe { (tm(a), tm(b)) };
+    unsafe {
+        tm(lanes!(16, |i: usize| if i < 8 {
+            sat_u8(a[i])
+        } else {
+            sat_u8(b[i - 8])
+        }))
+    }
+}
+pub fn mm_cvtepu8_epi32(a: __m128i) -> __m128i {
+    let a: [u8; 16] = unsafe { tm(a) };
+    unsafe { tm(lanes!(4, |i: usize| a[i] as i32)) }
+}
+pub fn mm_cvtepu8_epi16(a: __m128i) -> __m128i {
+    let a: [u8; 16] = unsafe { tm(a) };
+    unsafe { tm(lanes!(8, |i: usize| a[i] as i16)) }
+}
+
+// --------------------------------------------------------------------------- 128-bit float
+
+pub fn mm_cvtepi32_ps(a: __m128i) -> __m128 {
+    let a: [i32; 4] = unsafe { tm(a) };
+    unsafe { tm(lanes!(4, |i: usize| a[i] as f32)) }
+}
+pub fn mm_cvtps_epi32(a: __m128) -> __m128i {
+    let a: [f32; 4] = unsafe { tm(a) };
+    unsafe { tm(lanes!(4, |i: usize| cvt_f32_i32(a[i]))) }
+}
+pub fn mm_cvtps_pd(a: __m128) -> __m128d {
+    let a: [f32; 4] = unsafe { tm(a) };
+    unsafe { tm(lanes!(2, |i: usize| a[i] as f64)) }
+}
+pub fn mm_cmpneq_ps(a: __m128, b: __m128) -> __m128 {
+    let (a, b): ([f32; 4], [f32; 4]) = unsafe { (tm(a), tm(b)) };
+    unsafe { tm(lanes!(4, |i: usize| if a[i] != b[i] { u32::MAX } else { 0u32 })) }
+}
+
+// --------------------------------------------------------------------------- 256-bit integer
+
+pub fn mm256_add_epi16(a: __m256i, b: __m256i) -> __m256i {
+    let (a, b): ([i16; 16], [i16; 16]) = unsafe { (tm(a), tm(b)) };
+    unsafe { tm(lanes!(16, |i: usize| a[i].wrapping_add(b[i]))) }
+}
+pub fn mm256_add_epi32(a: __m256i, b: __m256i) -> __m256i {
+    let (a, b): ([i32; 8], [i32; 8]) = unsafe { (tm(a), tm(b)) };
+    unsafe { tm(lanes!(8, |i: usize| a[i].wrapping_add(b[i]))) }
+}
+pub fn mm256_add_epi64(a: __m256i, b: __m256i) -> __m256i {
+    let (a, b): ([i64; 4], [i64; 4]) = unsafe { (tm(a), tm(b)) };
+    unsafe { tm(lanes!(4, |i: usize| a[i].wrapping_add(b[i]))) }
+}
+pub fn mm256_mullo_epi16(a: __m256i, b: __m256i) -> __m256i {
+    let (a, b): ([i16; 16], [i16; 16]) = unsafe { (tm(a), tm(b)) };
+    unsafe { tm(lanes!(16, |i: usize| a[i].wrapping_mul(b[i]))) }
+}
+pub fn mm256_mullo_epi32(a: __m256i, b: __m256i) -> __m256i {
+    let (a, b): ([i32; 8], [i32; 8]) = unsafe { (tm(a), tm(b)) };
+    unsafe { tm(lanes!(8, |i: usize| a[i].wrapping_mul(b[i]))) }
+}
+pub fn mm256_mulhrs_epi16(a: __m256i, b: __m256i) -> __m256i {
+    let (a, b): ([i16; 16], [i16; 16]) = unsafe { (tm(a), tm(b)) };
+    unsafe { tm(lanes!(16, |i: usize| mulhrs(a[i], b[i]))) }
+}
+pub fn mm256_mul_epi32(a: __m256i, b: __m256i) -> __m256i {
+    let (a, b): ([i32; 8], [i32; 8]) = unsafe { (tm(a), tm(b)) };
+    unsafe { tm(lanes!(4, |i: usize| (a[2 * i] as i64) * (b[2 * i] as i64))) }
+}
+pub fn mm256_madd_epi16(a: __m256i, b: __m256i) -> __m256i {
+    let (a, b): ([i16; 16], [i16; 16]) = unsafe { (tm(a), tm(b)) };
+    unsafe {
+        tm(lanes!(8, |i: usize| ((a[2 * i] as i32) * (b[2 * i] as i32))
+            .wrapping_add((a[2 * i + 1] as i32) * (b[2 * i + 1] as i32))))
+    }
+}
+pub fn mm256_min_epu16(a: __m256i, b: __m256i) -> __m256i {
+    let (a, b): ([u16; 16], [u16; 16]) = unsafe { (tm(a), tm(b)) };
+    unsafe { tm(lanes!(16, |i: usize| if a[i] < b[i] { a[i] } else { b[i] })) }
+}
+pub fn mm256_shuffle_epi8(a: __m256i, b: __m256i) -> __m256i {
+    let (a, b): ([u8; 32], [u8; 32]) = unsafe { (tm(a), tm(b)) };
+    unsafe {
+        tm(lanes!(32, |i: usize| if b[i] & 0x80 != 0 {
+            0u8
+        } else {
+            a[(i & 16) + (b[i] & 0x0f) as usize]
+        }))
+    }
+}
+pub fn mm256_blendv_epi8(a: __m256i, b: __m256i, mask: __m256i) -> __m256i {
+    let (a, b, m): ([u8; 32], [u8; 32], [u8; 32]) = unsafe { (tm(a), tm(b), tm(mask)) };
+    unsafe { tm(lanes!(32, |i: usize| if m[i] & 0x80 != 0 { b[i] } else { a[i] })) }
+}
+pub fn mm256_packs_epi32(a: __m256i, b: __m256i) -> __m256i {
+    let (a, b): ([i32; 8], [i32; 8]) = unsafe { (tm(a), tm(b)) };
+    // per 128-bit lane: [a.lo4, b.lo4 | a.hi4, b.hi4]
+    unsafe {
+        tm(lanes!(16, |i: usize| {
+            let lane = i / 8;
+            let j = i % 8;
+            if j < 4 {
+                sat_i16(a[lane * 4 + j])
+            } else {
+                sat_i16(b[lane * 4 + j - 4])
+            }
+        }))
+    }
+}
+pub fn mm256_packus_epi32(a: __m256i, b: __m256i) -> __m256i {
+    let (a, b): ([i32; 8], [i32; 8]) = unsafe { (tm(a), tm(b)) };
+    unsafe {
+        tm(lanes!(16, |i: usize| {
+            let lane = i / 8;
+            let j = i % 8;
+            if j < 4 {
+                sat_u16(a[lane * 4 + j])
+            } else {
+                sat_u16(b[lane * 4 + j - 4])
+            }
+        }))
+    }
+}
+pub fn mm256_packus_epi16(a: __m256i, b: __m256i) -> __m256i {
+    let (a, b): ([i16; 16], [i16; 16]) = unsafe { (tm(a), tm(b)) };
+    unsafe {
+        tm(lanes!(32, |i: usize| {
+            let lane = i / 16;
+            let j = i % 16;
+            if j < 8 {
+                sat_u8(a[lane * 8 + j])
+            } else {
+                sat_u8(b[lane * 8 + j - 8])
+            }
+        }))
+    }
+}
+pub fn mm256_cvtepu8_epi16(a: __m128i) -> __m256i {
+    let a: [u8; 16] = unsafe { tm(a) };
+    unsafe { tm(lanes!(16, |i: usize| a[i] as i16)) }
+}
+
+// --------------------------------------------------------------------------- 256-bit float
+
+pub fn mm256_cvtepi32_ps(a: __m256i) -> __m256 {
+    let a: [i32; 8] = unsafe { tm(a) };
+    unsafe { tm(lanes!(8, |i: usize| a[i] as f32)) }
+}
+pub fn mm256_cvtps_epi32(a: __m256) -> __m256i {
+    let a: [f32; 8] = unsafe { tm(a) };
+    unsafe { tm(lanes!(8, |i: usize| cvt_f32_i32(a[i]))) }
+}
+pub fn mm256_cvtps_pd(a: __m128) -> __m256d {
+    let a: [f32; 4] = unsafe { tm(a) };
+    unsafe { tm(lanes!(4, |i: usize| a[i] as f64)) }
+}
+pub fn mm256_cvtpd_ps(a: __m256d) -> __m128 {
+    let a: [f64; 4] = unsafe { tm(a) };
+    unsafe { tm(lanes!(4, |i: usize| a[i] as f32)) }
+}
+/// Only the predicate the crate uses is modelled: _CMP_NEQ_UQ (4).
+pub fn mm256_cmp_ps<const IMM5: i32>(a: __m256, b: __m256) -> __m256 {
+    assert!(IMM5 == 4, "x86_model: only _CMP_NEQ_UQ is modelled");
+    let (a, b): ([f32; 8], [f32; 8]) = unsafe { (tm(a), tm(b)) };
+    unsafe { tm(lanes!(8, |i: usize| if a[i] != b[i] { u32::MAX } else { 0u32 })) }
+}
